@@ -818,7 +818,7 @@ func runC08(o Opts) (*Result, error) {
 		cfg Cfg
 	}
 	// the fixed histories (c08_fixed.go) run after the generated ones on every run
-	fixed := fixedHists()
+	fixed := append(fixedHists(), wideFixedHists()...)
 	total := o.N + len(fixed)
 	outs := make([]hout, total)
 	ParallelFor(total, o.Workers, func(i int) {
